@@ -54,7 +54,7 @@ pub fn stamp_timeliness(log: &[L]) -> Vec<Finding> {
               other => out.push(f("c09-read", format!("@{} T{} read r{}: stamp taken via {:?}, not from the reader #{} handed to the task", i, t, r, other, h))),
             }
             if let Some((ch, cj)) = consumed_at { if ch == h && cj < s.5 { out.push(f("c09-read", format!("@{} T{} read r{}: the task consumed the reader before it was stamped", i, t, r))); } }
-            if s.4 != observe_r(*chk, seen) { out.push(f("c09-read", format!("@{} T{} read r{}: stamp {} does not describe the value {:?} the task saw", i, t, r, s.4, seen))); }
+            if s.4 != stamp_r(*chk, seen) { out.push(f("c09-read", format!("@{} T{} read r{}: stamp {} does not describe the value {:?} the task saw", i, t, r, s.4, seen))); }
           }
         }
         i = j.max(i + 1);
@@ -89,7 +89,7 @@ pub fn stamp_timeliness(log: &[L]) -> Vec<Finding> {
               (Via::WrittenTo, StampRoute::Direct) => {}
               (_, other) => out.push(f("c09-write", format!("@{} T{} write r{} via {:?}: stamp taken via {:?} (writer used by the task: #{})", i, t, r, via, other, fh))),
             }
-            if s.3 != observe_r(*chk, val) { out.push(f("c09-write", format!("@{} T{} write r{}: stamp {} does not describe the written value {:?}", i, t, r, s.3, val))); }
+            if s.3 != stamp_r(*chk, val) { out.push(f("c09-write", format!("@{} T{} write r{}: stamp {} does not describe the written value {:?}", i, t, r, s.3, val))); }
           }
         }
         i = j.max(i + 1);
